@@ -211,6 +211,7 @@ type vfIntent struct {
 	Token     *vfTokenReq
 	Present   *vfPresent
 	Adm       *vfAdmReq
+	Probe     *vfProbe
 }
 
 type vfCertReq struct {
